@@ -53,9 +53,12 @@ func zzC04Missing(yrz, T int) {
 	none := vFloat("none")
 	vAssume(none <= -90)
 	var tmp, verd, sund, radi, reg [3][8]float64
+	// years of different length (as leap and ordinary years): T, T-1, T, ...
+	var ylen [3]int
 	for y := 0; y < yrz; y++ {
-		s.MaxYearDays[y] = T
-		for i := 0; i < T; i++ {
+		ylen[y] = T - y%2
+		s.MaxYearDays[y] = ylen[y]
+		for i := 0; i < ylen[y]; i++ {
 			tmp[y][i] = vFloat("tmp", y, i)
 			verd[y][i] = vFloat("verd", y, i)
 			sund[y][i] = vFloat("sund", y, i)
@@ -74,15 +77,18 @@ func zzC04Missing(yrz, T int) {
 	vCover("C04.missing.reach")
 	eps := 1e-9
 	for y := 0; y < yrz; y++ {
-		for i := 0; i < T; i++ {
+		for i := 0; i < ylen[y]; i++ {
 			vObserve("tmp", s.TMP[y][i])
 			// calendar neighbours across the year change
 			py, pi := y, i-1
 			if pi < 0 {
-				py, pi = y-1, T-1
+				py = y - 1
+				if py >= 0 {
+					pi = ylen[py] - 1
+				}
 			}
 			ny, ni := y, i+1
-			if ni >= T {
+			if ni >= ylen[y] {
 				ny, ni = y+1, 0
 			}
 			hasBoth := py >= 0 && ny < yrz
